@@ -56,6 +56,7 @@ def member_obs(r):
         "scan_count": int(c.scan_count), "match_count": int(c.match_count), "stopped": bool(c.stopped), "completed": bool(c.completed),
         "calls": list(getattr(c, "_verif_calls", [])), "cwnm": bool(c.collect_when_not_matched), "will_run": bool(c.will_run),
         "scanner": None if c.scanner is None else {"these": list(c.scanner.these), "from": c.scanner.from_line, "to": c.scanner.to_line, "all": bool(c.scanner.all_lines)},
+        "headers": [f"{h}" for h in (c.headers or [])],
         "run_dir": r.run_dir, "instance_dir": getattr(r, "instance_dir", None), "started": c.run_started_at is not None,
         "pln": (c.line_monitor.physical_line_number if c.line_monitor else None), "dlc": (c.line_monitor.data_line_count if c.line_monitor else None),
     }
